@@ -244,6 +244,18 @@ func (matrix *DenseInt64Matrix) Tip() {
   matrix.rowMax, matrix.colMax = matrix.colMax, matrix.rowMax
 }
 func (matrix *DenseInt64Matrix) AsVector() Vector {
+  if matrix.cols < matrix.colMax || matrix.rows < matrix.rowMax {
+    // this is a view on a larger matrix, copy the elements
+    // that belong to it
+    n, m := matrix.Dims()
+    v := make([]int64, n*m)
+    for i := 0; i < n; i++ {
+      for j := 0; j < m; j++ {
+        v[i*m + j] = matrix.values[matrix.index(i, j)]
+      }
+    }
+    return DenseInt64Vector(v)
+  }
   return DenseInt64Vector(matrix.values)
 }
 func (matrix *DenseInt64Matrix) storageLocation() uintptr {
@@ -333,7 +345,7 @@ func (matrix *DenseInt64Matrix) IsSymmetric(epsilon float64) bool {
   return true
 }
 func (matrix *DenseInt64Matrix) AsConstVector() ConstVector {
-  return DenseInt64Vector(matrix.values)
+  return matrix.AsVector()
 }
 /* implement ScalarContainer
  * -------------------------------------------------------------------------- */
